@@ -214,6 +214,39 @@ theorem c18_heartbeat_recorded (s : State) (i : Inst) (t : Nat) : HeartbeatRecor
     | inl h => exact h.1
     | inr h => rw [h] at hne; exact absurd rfl hne
 
+/-- **A report is recorded under the reporting id**: an answered report of `i` for `u` leaves a condition owned by `i`
+    under `i`'s condition name. With `c18_heartbeat_recorded` and `c18_acquire_recorded`: all three entry points key
+    what they record by the id the client sent, so the passes compare like with like whatever the id looks like. -/
+theorem c18_report_recorded (s : State) (u : Ups) (i : Inst) (ri : List (Str × Kind)) (q : List Item) (l : Str)
+    (h : (report shardOf s u i ri q).2 = .reported l) : ReportRecorded shardOf u i (report shardOf s u i ri q).1 := by
+  intro hne
+  obtain ⟨_, upc, hupc, e⟩ := report_ok shardOf s u i ri q l h
+  obtain ⟨_, hu, hn⟩ := getCond_some s _ _ _ _ hupc
+  rw [e]
+  refine ⟨(shardOf u, ⟨condName u i, u, i, some l, q, []⟩), ?_, rfl, rfl, rfl, rfl⟩
+  apply mem_saveCond_of_ne
+  · simp [saveCond]
+  · intro hk
+    exact hne (by rw [← hn]; exact hk.2.2)
+
+/-- **An acquire is recorded under the acquiring id**: every request served by a max-in-flight flow control leaves an
+    in-flight state of `i` there. -/
+theorem c18_acquire_recorded (s : State) (u : Ups) (i : Inst) (rid : Int) (reqs : List (Str × Int))
+    (rs : List (Str × Bool × Int × String)) (h : (acquire shardOf s u i rid reqs).2 = .acquired rs) :
+    AcquireRecorded shardOf u i rs (acquire shardOf s u i rid reqs).1 := by
+  unfold acquire at h ⊢
+  simp only [] at h ⊢
+  split at h
+  · cases h
+  · split at h
+    · cases h
+    · rename_i h1 h2
+      simp only [h1, h2, if_false, Bool.false_eq_true]
+      simp only [Out.acquired.injEq] at h
+      intro r hr he
+      have := acquireLoop_recorded i rid (shardOf u) u reqs s [] (fun r hr => by cases hr) r (by rw [h]; exact hr) he
+      exact this
+
 /-- **A report of `j` removes nothing recorded for another instance**, except what is stored under `j`'s own
     condition name and the upstream state condition, which it rewrites. -/
 theorem c18_report_keeps_others (s : State) (u : Ups) (j : Inst) (ri : List (Str × Kind)) (q : List Item) :
@@ -491,7 +524,7 @@ theorem c18_first_tick_after_timeout_reclaims (s0 : State) (i : Inst) (t0 tick :
 /-- `judgeStep` — the function the harness evaluates on the states observed on the real code — answers "no violation"
     for every step of the model from every state. -/
 theorem c18_judge_sound (s : State) (op : Op) :
-    judgeStep shardOf s op (Out.isOk (step shardOf s op).2) (step shardOf s op).1 = [] := by
+    judgeStep shardOf s op (step shardOf s op).2 (step shardOf s op).1 = [] := by
   cases op with
   | heartbeat i t => simp [judgeStep, step, c18_heartbeat_recorded]
   | report u j ri q =>
@@ -499,8 +532,17 @@ theorem c18_judge_sound (s : State) (op : Op) :
     rcases report_out_cases shardOf s u j ri q with ⟨e, he⟩ | ⟨l, hl⟩
     · simp [judgeStep, step, he, Out.isOk, h2]
     · have h1 := c18_report_records_sum shardOf s u j ri q l hl
-      simp [judgeStep, step, hl, Out.isOk, h1, h2]
-  | acquire u j rid reqs => simp [judgeStep, step, c18_acquire_keeps_others]
+      have h3 := c18_report_recorded shardOf s u j ri q l hl
+      simp [judgeStep, step, hl, Out.isOk, h1, h2, h3]
+  | acquire u j rid reqs =>
+    have h2 := c18_acquire_keeps_others shardOf s u j rid reqs
+    cases hout : (acquire shardOf s u j rid reqs).2 with
+    | acquired rs =>
+      have h3 := c18_acquire_recorded shardOf s u j rid reqs rs hout
+      simp [judgeStep, step, hout, h2, h3]
+    | unit => simp [judgeStep, step, hout, h2]
+    | err e => simp [judgeStep, step, hout, h2]
+    | reported l => simp [judgeStep, step, hout, h2]
   | cleanupTimeout now =>
     simp [judgeStep, step, c18_timeout_pass_reclaims, c18_live_safe_timeout_pass,
       (c18_passes_respect_leadership shardOf s now).1]
@@ -519,6 +561,7 @@ theorem c18_judge_sound (s : State) (op : Op) :
   | burst u j n st => simp [judgeStep, step, c18_burst_keeps_others]
   | faults names => rfl
   | apiDelete name => rfl
+  | wireRejected => rfl
 
 
 /-! ## Non-vacuity: a concrete history in which something IS recorded, reclaimed and kept
